@@ -68,18 +68,27 @@ Definition crun_late (sid : nat) (c : cstate) : cstate :=
 Definition cloop (sid : nat) (c : cstate) : cstate :=
   crun_late sid (match c_ph c with PhQueued st => creport sid st c | _ => c end).
 
-Definition cstep (sid : nat) (c : cstate) (e : event) : cstate :=
+(* h = is the SIGCHLD handler installed (the one bit of shared state the object's life depends on) *)
+Definition cstep (sid : nat) (h : bool) (c : cstate) (e : event) : cstate :=
   match e with
   | ESpawn _ => c
   | EExit p st =>
       if p =? s_pid (c_sub c) then
         match c_ph c with PhRun => mkC (c_sub c) (PhZombie st) (c_inw c) (c_calls c) (c_late c) | _ => c end
       else c
-  | ESigchld => if c_inw c then ctry c else c
+  | ESigchld => if h && c_inw c then ctry c else c
   | EReg s l => if Nat.eqb s sid then creg prep_plain (cb_plain l) c else c
   | EWait s l re => if Nat.eqb s sid then creg (prep_fut l) (cb_fut l re) c else c
   | ELoop => cloop sid c
+  | EInit => c
+  | EUninit => c
   end.
+
+(* the object's automaton runs alongside the world, from which it reads only Subprocess._initialized *)
+Definition pstep (sid : nat) (wc : world * cstate) (e : event) : world * cstate :=
+  (step (fst wc) e, cstep sid (w_init (fst wc)) (snd wc) e).
+Definition trk (sid : nat) (w : world) (r : list event) (c : cstate) : cstate :=
+  snd (fold_left (pstep sid) r (w, c)).
 
 (* ---------- trace vocabulary ---------- *)
 Definition is_spawn (e : event) : bool := match e with ESpawn _ => true | _ => false end.
@@ -109,9 +118,18 @@ Definition exit_status (sid : nat) (es : list event) : option Z :=
   end.
 
 (* the specification's account of object sid after the whole trace *)
+(* the trace up to and including the creation of object number sid *)
+Fixpoint spawn_prefix (sid : nat) (es : list event) : list event :=
+  match es with
+  | [] => []
+  | ESpawn p :: r =>
+      match sid with O => [ESpawn p] | S k => ESpawn p :: spawn_prefix k r end
+  | e :: r => e :: spawn_prefix sid r
+  end.
+
 Definition track (sid : nat) (es : list event) : option cstate :=
   match after_spawn sid es with
-  | Some (p, r) => Some (fold_left (cstep sid) r (cinit p))
+  | Some (p, r) => Some (trk sid (run (spawn_prefix sid es)) r (cinit p))
   | None => None
   end.
 
